@@ -29,7 +29,7 @@ package limiter
 //@   prop C17
 //@   nopanic
 //@   requires l != nil && ghost.donechan[l.tasks] == 0
-//@   modifies ghost.chansent[l.tasks], ghost.chanlen[*], ghost.chanrecv[*]
+//@   modifies ghost.chansent[l.tasks], ghost.chanlen[*], ghost.chanrecv[*], ghost.cancel_calls
 //@   ensures [success_takes_one_permit] err == nil ==> ghost.chansent[l.tasks] == old(ghost.chansent[l.tasks]) + 1
 //@   ensures [failure_takes_no_permit] err != nil ==> ghost.chansent[l.tasks] == old(ghost.chansent[l.tasks])
 //@   ensures [failure_is_timeout] err != nil ==> err == core.ErrTimeout && l.timeout > 0
@@ -46,7 +46,7 @@ package limiter
 //@ func (*ConcurrentLimiter).Handler
 //@   prop C17
 //@   havoc
-//@   modifies @NEXT_IO, ghost.chansent[l.tasks], ghost.chanlen[*], ghost.chanrecv[*]
+//@   modifies @NEXT_IO, ghost.chansent[l.tasks], ghost.chanlen[*], ghost.chanrecv[*], ghost.cancel_calls
 //@   requires l != nil && ghost.donechan[l.tasks] == 0
 //@   stable l.tasks
 //@   let held0 = ghost.chansent[l.tasks] - ghost.chanrecv[l.tasks]
@@ -73,7 +73,7 @@ package limiter
 //@ func (*RateLimiter).Acquire
 //@   prop C17
 //@   nopanic
-//@   modifies l.next, ghost.clock, ghost.chanrecv[*], ghost.chanlen[*]
+//@   modifies l.next, ghost.clock, ghost.chanrecv[*], ghost.chanlen[*], ghost.cancel_calls
 //@   requires l != nil && l.interval > 0.0 && tokens >= 0 && l.maxPermits >= 0.0
 //@   loop 1 invariant ghost.clock >= old(ghost.clock)
 //@   ensures [failure_is_timeout] err != nil ==> err == core.ErrTimeout && l.timeout > 0
@@ -90,7 +90,7 @@ package limiter
 //@ func (*RateLimiter).IOHandler
 //@   prop C17
 //@   havoc
-//@   modifies @NEXT_IO, ghost.chanrecv[*], ghost.chanlen[*]
+//@   modifies @NEXT_IO, ghost.chanrecv[*], ghost.chanlen[*], ghost.cancel_calls
 //@   requires l != nil && l.interval > 0.0 && l.maxPermits >= 0.0
 //@   ensures [at_most_one_call] ghost.fwd == old(ghost.fwd) || ghost.fwd == old(ghost.fwd) + 1
 //@   ensures [rejected_means_timeout_and_no_call] ghost.fwd == old(ghost.fwd) ==> err == core.ErrTimeout
@@ -100,7 +100,7 @@ package limiter
 //@ func (*RateLimiter).InvokeHandler
 //@   prop C17
 //@   havoc
-//@   modifies @NEXT_INVOKE, ghost.chanrecv[*], ghost.chanlen[*]
+//@   modifies @NEXT_INVOKE, ghost.chanrecv[*], ghost.chanlen[*], ghost.cancel_calls
 //@   requires l != nil && l.interval > 0.0 && l.maxPermits >= 0.0
 //@   ensures [at_most_one_call] ghost.fwd == old(ghost.fwd) || ghost.fwd == old(ghost.fwd) + 1
 //@   ensures [rejected_means_timeout_and_no_call] ghost.fwd == old(ghost.fwd) ==> err == core.ErrTimeout
